@@ -139,7 +139,19 @@ def shard(col, module, mode, pop_bound, limit, n_groups):
                             # without the assertions a binding may have become unused and been dropped
                             m = re.match(r"^var_\d+ = (.*)$", l)
                             out.append(m.group(1) if m else l)
-                    return out
+                    # the assertions that follow one statement are side-effect free: their order among
+                    # each other is immaterial (the parser re-attaches liftable ones to the statement and
+                    # keeps the others as raw statements behind them) - sort each run of assert lines
+                    res, run_ = [], []
+                    for l in out:
+                        if l.startswith("assert "):
+                            run_.append(l)
+                        else:
+                            res.extend(sorted(run_))
+                            run_ = []
+                            res.append(l)
+                    res.extend(sorted(run_))
+                    return res
 
                 for ti, ((d1, b1), (d2, b2)) in enumerate(zip(orig, again)):
                     want = canon(b1, create_assertions)
